@@ -21,10 +21,13 @@ def run(rep):
     b7(rep, w)
     b3(rep, w)
     b8(rep, w)
+    b9(rep, w)
     import c04_narrow
     c04_narrow.b4(rep, w)
     b5(rep, w)
     c17.l2(rep, w)
+    import c08
+    c08.x8(rep, w)   # JumpFinally is emitted only where a handler of the same function is registered at run time
 
 
 # ---- VM side: bytes consumed ----------------------------------------------------------------------------------
@@ -682,6 +685,55 @@ def b8(rep, w):
             r.check(bad is None, '%s / %s #%d' % (f.path.replace(P, ''), o or k, n),
                     'code is emitted by %s right after the unconditional %s, with no jump target in between: it can never execute '
                     '(scope-end pops / handler clean-up placed there are skipped)' % ((bad or ('', ''))[1], o or k), f.loc(calls[bi].get('sp')))
+
+
+def b9(rep, w):
+    """error discipline inside the compiler: the bookkeeping layer (`Compiler::*`) signals "limit reached / invalid" through a
+    bool or a Result<_, CompilerError>; the parser has to look at it -- a dropped refusal means the bytecode is emitted as if the
+    slot / jump / upvalue had been recorded"""
+    c = w.yarel
+    r = rep.rule('B9', 'no refusal of the compiler\'s bookkeeping layer is dropped: every bool / Result returned by a Compiler:: method is examined by its caller', floor=9)
+    for f in sorted(c.fns.values(), key=lambda x: x.path):
+        if not f.file.endswith('compiler.rs'):
+            continue
+        n_in_f = {}
+        for bi, t in sorted(f.calls()):
+            nm = callee_name(t) or ''
+            if not nm.startswith(COMPILER):
+                continue
+            g = w.fns.get(nm)
+            if g is None:
+                continue
+            rt = g.crate.tstr(g.local_ty(0))
+            if not (rt == 'bool' or rt.startswith('std::result::Result')):
+                continue
+            dl = t['dst']['l'] if not t['dst'].get('p') else None
+            used = False
+            if dl is not None:
+                for b in f.blocks:
+                    for s_ in b['s']:
+                        rr = s_.get('r', {})
+                        for o in [rr.get('o'), rr.get('a'), rr.get('b'), rr.get('p')] + list(rr.get('ops') or []):
+                            pl = op_place(o) if isinstance(o, dict) and ('m' in o or 'c' in o) else (o if isinstance(o, dict) and 'l' in o else None)
+                            if pl is not None and pl.get('l') == dl:
+                                used = True
+                    tt = b['t']
+                    if tt is not t:
+                        for o in [tt.get('d')] + list(tt.get('args') or []):
+                            pl = op_place(o) if isinstance(o, dict) else None
+                            if pl is not None and pl.get('l') == dl:
+                                used = True
+                    if tt['t'] == 'return' and dl == 0:
+                        used = True
+            else:
+                used = True
+            if dl == 0:
+                used = True   # returned to the caller, who is checked in turn
+            k = n_in_f.get(nm, 0)
+            n_in_f[nm] = k + 1
+            r.check(used, '%s -> %s #%d' % (f.path.replace(P, '').replace(COMPILER, 'Compiler::'), nm.replace(COMPILER, ''), k),
+                    'the %s returned by Compiler::%s is dropped: when it refuses (limit reached / invalid state) compilation carries on as if it had succeeded and '
+                    'the emitted code no longer matches the recorded variables' % ('bool' if rt == 'bool' else 'Result', nm.replace(COMPILER, '')), f.loc(t.get('sp')))
 
 
 def b7(rep, w):
